@@ -4,6 +4,7 @@ mod c05;
 mod c06;
 mod c11;
 mod c17;
+mod crashx;
 mod e1;
 mod explore;
 mod families;
@@ -65,6 +66,7 @@ fn main() {
                     run_e1(jobs, &|cx, rep, _| props_e1::check_c18_pointer(cx, rep), &mut rep);
                     rep.finish() }
                 "C11" => c11check(tier),
+                "C12" => { let mut rep = Report::new("C12", tier, "fault_enumeration"); rep.rule = "histories on SQLite (application message, proposal, commit, commit with rollback + relay replacement, own create_message / self_update / merge_pending_commit, process + accept welcome); for every API call and every storage tick k of it a child process replays the earlier calls, runs the call and dies by abort() at tick k; the parent reopens the file, loads every group, checks the relay set is the old or the new one, re-offers the interrupted call and all later ones and compares with the uninterrupted run; distinct = distinct (history, call, tick label, k)".into(); crashx::check_c12(&mut rep, tier != "quick"); rep.finish() }
                 "C14" => c14(tier),
                 "C15" => { let mut rep = Report::new("C15", tier, "exploration"); rep.rule = "group-data extension: every value of name/description {empty, ASCII, 2-, 3-, 4-byte UTF-8, NUL inside, 255 B} x 0..3 admins x 4 relay sets x 16 presence patterns of the image fields x versions {1,2,3,65535} round-trips; every prefix truncation, appended suffix, wrong fixed length, version 0, invalid UTF-8 / URL is refused; key-package events, welcome rumors, imeta tags: round trip through the public create/parse pair and every single-field mutation refused; distinct = distinct (family, shape)".into(); shapes::check_c15(&mut rep, tier != "quick"); rep.finish() }
                 "C16" => c16check(tier),
@@ -73,6 +75,7 @@ fn main() {
             }
         }
         "bench" => { bench_storex(); 0 }
+        "crash-child" => crashx::child(&args[2..]),
         "trace" => {
             // mdkv trace <scenario-name> <member> <pool indices / m / c / r ...>  (debugging aid)
             let mut all = families::c01_thorough();
